@@ -316,7 +316,7 @@ class TexNode(object):
         ' Nested\n    '
         """
         for descendant in self.contents:
-            if isinstance(descendant, (TexText, Token)):
+            if isinstance(descendant, (TexText, str)):
                 yield descendant
             elif hasattr(descendant, 'text'):
                 yield from descendant.text
